@@ -415,4 +415,7 @@ func TestC10(t *testing.T) {
 	r := c10Res
 	r.Checks = n(40, 600)
 	r.Run(t)
+	p := c10PP
+	p.Checks = n(30, 600)
+	p.Run(t)
 }
